@@ -175,8 +175,9 @@ class Printer:
     def note(self, what):
         self.used[what] = self.used.get(what, 0) + 1
 
-    def apply(self, mapping, args, selfexpr=None, node=None, key=''):
-        """mapping: 'fname' | template with {0} {&0} {self} {*self} | '@drop' | '@nondet'; trailing '!' = may throw"""
+    def apply(self, mapping, args, selfexpr=None, node=None, key='', objnode=None):
+        """mapping: 'fname' | template with {0} {&0} {self} {*self} {obj} | '@drop' | '@nondet' | '@fold:g'; trailing '!' = may throw
+        ({obj} = the object expression of a member call printed as a value, without taking its address first)"""
         throws = False
         hoist = False
         if mapping.endswith('!^'):
@@ -229,6 +230,18 @@ class Printer:
         if mapping == '@nondet':
             c = self.ctype(node['type'])
             return self.nondet(c)
+        if mapping.startswith('@fold:'):
+            # f({a, b, c}) over a std::initializer_list of scalars -> g(g(a, b), c) with the binary stub g
+            # (std::min / std::max of a list return the leftmost extremum, which is what the left fold of the
+            # two-argument form computes)
+            els = self.init_list_elements(args[0]) if len(args) == 1 else None
+            if not els:
+                raise Unsupported(f'mapping {mapping!r} needs one non-empty initializer-list argument ({key})')
+            g = mapping[len('@fold:'):]
+            acc = self.expr(els[0])
+            for e in els[1:]:
+                acc = f'{g}({acc}, {self.expr(e)})'
+            return acc
         if '{' not in mapping and '(' not in mapping:
             a = ([selfexpr] if selfexpr is not None else []) + [self.arg(x) for x in args]
             text = f'{mapping}({", ".join(a)})'
@@ -244,6 +257,10 @@ class Printer:
                 return selfexpr
             if w == '*self':
                 return f'(*{selfexpr})'
+            if w == 'obj':
+                if objnode is None:
+                    raise Unsupported(f'mapping {mapping!r}: {{obj}} outside a member call ({key})')
+                return self.expr(objnode[0]) if not objnode[1] else f'(*{self.expr(objnode[0])})'
             if w == 'T':
                 return self.ctype(node['type'])
             addr = w.startswith('&')
@@ -251,7 +268,16 @@ class Printer:
             if i >= len(args):
                 raise Unsupported(f'mapping {mapping!r} wants arg {i} of {key}')
             return self.addr(args[i]) if addr else self.expr(args[i])
-        return re.sub(r'\{(&?\d+|self|\*self|T)\}', sub, mapping)
+        return re.sub(r'\{(&?\d+|self|\*self|obj|T)\}', sub, mapping)
+
+    def init_list_elements(self, n):
+        """element expressions of a braced list passed as std::initializer_list<scalar>, else None"""
+        u = n
+        while isinstance(u, dict) and u.get('kind') in TRANSPARENT | {'CXXStdInitializerListExpr'} and u.get('inner'):
+            u = u['inner'][0]
+        if not isinstance(u, dict) or u.get('kind') != 'InitListExpr':
+            return None
+        return list(u.get('inner', []))
 
     def nondet(self, c):
         if c == 'void':
@@ -557,11 +583,13 @@ class Printer:
             if self.is_opaque(obj.get('type')) or self.any_opaque_operand(inner[1:]):
                 return self.havoc_value(n, f'member call {name} on erased numerics')
             raise Unsupported(f'member call not mapped: {key}')
-        if me.get('isArrow'):
+        if '{obj}' in m and '{self}' not in m and '{*self}' not in m:
+            selfexpr = None     # value-only mapping: do not materialise a temporary just to take its address
+        elif me.get('isArrow'):
             selfexpr = self.expr(obj)
         else:
             selfexpr = self.addr(obj)
-        return self.apply(m, inner[1:], selfexpr=selfexpr, node=n, key=key)
+        return self.apply(m, inner[1:], selfexpr=selfexpr, node=n, key=key, objnode=(obj, bool(me.get('isArrow'))))
 
     def call(self, n):
         inner = n['inner']
